@@ -18,16 +18,17 @@ import (
 )
 
 type HarnessSpec struct {
-	Entry    string         `json:"entry"`
-	Pkg      string         `json:"pkg"`
-	Native   bool           `json:"native"`
-	Reach    []string       `json:"reach"`
-	Unwind   int            `json:"unwind"`
-	Quick    map[string]int `json:"quick"`
-	Thorough map[string]int `json:"thorough"`
-	OnlyTier string         `json:"only_tier"`
-	MaxSteps int            `json:"max_steps"`
-	Note     string         `json:"note"`
+	Entry    string            `json:"entry"`
+	Pkg      string            `json:"pkg"`
+	Native   bool              `json:"native"`
+	Reach    []string          `json:"reach"`
+	Unwind   int               `json:"unwind"`
+	Quick    map[string]int    `json:"quick"`
+	Thorough map[string]int    `json:"thorough"`
+	OnlyTier string            `json:"only_tier"`
+	MaxSteps int               `json:"max_steps"`
+	Stubs    map[string]string `json:"stubs"` // target function -> harness function (pkg-relative "pkg.Func")
+	Note     string            `json:"note"`
 }
 
 type Spec struct {
@@ -199,6 +200,7 @@ func cmdCheck(args []string) int {
 		}
 		P.seed = seed
 		P.verbose = *verbose
+		fileStubs := P.stubs
 		if tier == "thorough" {
 			P.tier = 1
 			P.solverTimeoutMs = 60000
@@ -235,6 +237,14 @@ func cmdCheck(args []string) int {
 			P.maxSteps = 20_000_000
 			if h.MaxSteps > 0 {
 				P.maxSteps = h.MaxSteps
+			}
+			P.stubs = map[string]string{}
+			for k, v := range fileStubs {
+				P.stubs[k] = v
+			}
+			for target, hf := range h.Stubs {
+				t := strings.ReplaceAll(target, "~", repoModule)
+				P.stubs[t] = strings.ReplaceAll(hf, "~", repoModule)
 			}
 			e := NewExplorer(P, fn, h.Entry)
 			if h.Native && !*noNative {
@@ -727,4 +737,3 @@ func (ev *evidenceBuilder) write(reports []*harnessReport, viols []*Violation, v
 	b, _ := json.MarshalIndent(doc, "", " ")
 	os.WriteFile(filepath.Join(ev.vd, "evidence", ev.id+".json"), b, 0o644)
 }
-
